@@ -264,6 +264,9 @@ func (e *bpmEnv) do(op []string) map[string]interface{} {
 }
 
 func bpmDriver(args []string) error {
+	if len(args) > 0 && args[0] == "conc" {
+		return bpmConc(args[1:])
+	}
 	switch args[0] {
 	case "walk":
 		// bpm walk <walks.json> <out.ndjson> <frames> <maxpid>
